@@ -18,7 +18,7 @@ def prop(pid, quick, thorough=(), level="other", explanation="", assumptions=(),
 
 prop(
     "C01",
-    [hdr.rule_generics_source, hyg.rule_generic_capture, fmtparse.rule_fmt_counter, conv.rule_from_table, hdr.rule_bounds_appended, idx.rule_idx_space, shape.rule_discriminants, hdr.rule_tpl_hdr, hdr.rule_tpl_lint, hdr.rule_tpl_selfassoc, rawid.rule_raw_id, shape.rule_tpl_prec, fmtdec.rule_traversal, fmtdec.rule_guard_use, fmtdec.rule_shared_decision, gendet.rule_generics_search, gendet.rule_type_param_used, reject.rule_reject_ledger, idx.rule_enumerate_positions, errsel.rule_error_selection, fmtdec.rule_expansion_pair, hdr.rule_generics_preserve],
+    [hdr.rule_generics_source, hyg.rule_generic_capture, fmtparse.rule_fmt_counter, conv.rule_from_table, hdr.rule_bounds_appended, idx.rule_idx_space, shape.rule_discriminants, hdr.rule_tpl_hdr, hdr.rule_tpl_lint, hdr.rule_tpl_selfassoc, rawid.rule_raw_id, shape.rule_tpl_prec, fmtdec.rule_traversal, fmtdec.rule_guard_use, fmtdec.rule_shared_decision, gendet.rule_generics_search, gendet.rule_type_param_used, reject.rule_reject_ledger, idx.rule_enumerate_positions, errsel.rule_error_selection, fmtdec.rule_expansion_pair, hdr.rule_generics_preserve, generic.rule_zip_alignment, panics.rule_extern_preconditions],
     explanation="Structural necessary conditions of 'every supported input expands to code that compiles warning-free': the 27 generated impl headers and every TypeGenerics splice "
     "(interpolations typed by rustc through the MIR binding join, identifier provenance by def-use), lint attributes on impls that name user variants, no Self::<Assoc> in enum-capable expanders, raw identifiers, "
     "spliced user expressions.",
@@ -30,7 +30,7 @@ prop(
 
 prop(
     "C02",
-    [fmtparse.rule_single_placeholder, state.rule_shared_cursor, fmtdec.rule_literal_verbatim, tables.rule_fmt_trait_tables, fmtdec.rule_tpl_verb, fmtdec.rule_binder_align, fmtdec.rule_pointer_deref, fmtdec.rule_rename_all, state.rule_iteration_state, optrules.rule_option_flow, rawid.rule_raw_id, fmtparse.rule_peg_tables, fmtparse.rule_peg_equiv, fmtdec.rule_attr_separator, generic.rule_truncating_adaptors],
+    [fmtparse.rule_single_placeholder, state.rule_shared_cursor, fmtdec.rule_literal_verbatim, tables.rule_fmt_trait_tables, fmtdec.rule_tpl_verb, fmtdec.rule_binder_align, fmtdec.rule_pointer_deref, fmtdec.rule_rename_all, state.rule_iteration_state, optrules.rule_option_flow, rawid.rule_raw_id, fmtparse.rule_peg_tables, fmtparse.rule_peg_equiv, fmtdec.rule_attr_separator, generic.rule_truncating_adaptors, generic.rule_zip_alignment, split.rule_expr_ident_eq, generic.rule_order_adaptors, fmtdec.rule_literal_parsed],
     explanation="With an attribute the expansion *is* a write!/format_args! call, so 'prints what format! prints' reduces to: the attribute's tokens reach the macro verbatim and in order, fields are bound under "
     "the names the literal may use (`ident` / `_i`, same field), Pointer placeholders get the field itself, and the implicit body (unit name with rename_all, single-field delegation) is built as documented.",
     assumptions=["Rust's own semantics of format_args! (trusted)", NOT_DECIDED_VALUES],
@@ -53,7 +53,7 @@ prop(
 
 prop(
     "C04",
-    [conv.rule_merge_symmetry, conv.rule_merge_no_shortcut, hdr.rule_user_bounds_flow, split.rule_alias_test, split.rule_ident_argument, hdr.rule_bounds_appended, attrs.rule_typed_attrs, tables.rule_fmt_trait_tables, fmtdec.rule_guard_use, fmtdec.rule_traversal, fmtdec.rule_lookup_agreement, fmtdec.rule_shared_decision, fmtparse.rule_fmt_counter, fmtparse.rule_peg_tables, fmtdec.rule_expansion_pair, generic.rule_truncating_adaptors],
+    [conv.rule_merge_symmetry, conv.rule_merge_no_shortcut, hdr.rule_user_bounds_flow, split.rule_alias_test, split.rule_ident_argument, hdr.rule_bounds_appended, attrs.rule_typed_attrs, tables.rule_fmt_trait_tables, fmtdec.rule_guard_use, fmtdec.rule_traversal, fmtdec.rule_lookup_agreement, fmtdec.rule_shared_decision, fmtparse.rule_fmt_counter, fmtparse.rule_peg_tables, fmtdec.rule_expansion_pair, generic.rule_truncating_adaptors, generic.rule_zip_alignment, generic.rule_order_adaptors],
     explanation="Bounds are emitted by six templates `#ty: core::fmt::#Trait`; each must be guarded by contains_generics on the same binding; contains_generics must traverse every variant / type-bearing field of "
     "syn::Type, PathArguments and GenericArgument (read from the syn sources the crate builds against); the placeholder->field lookup agrees with its sibling and with the binder names; body and bounds take the same decisions.",
     assumptions=["NOT decided: that bounded_types is a complete algorithm for arbitrary literals beyond these necessary conditions", NOT_DECIDED_VALUES],
@@ -61,7 +61,7 @@ prop(
 
 prop(
     "C05",
-    [fmtdec.rule_literal_parsed, fmtdec.rule_shared_decision, fmtdec.rule_shared_attr_unfiltered, fmtdec.rule_dec_cover, fmtdec.rule_transparent_call, fmtdec.rule_transparent_siblings, split.rule_split_table, fmtparse.rule_peg_combinators, fmtparse.rule_single_placeholder, split.rule_alias_test, generic.rule_truncating_adaptors, state.rule_iteration_state],
+    [fmtdec.rule_literal_parsed, fmtdec.rule_shared_decision, fmtdec.rule_shared_attr_unfiltered, fmtdec.rule_dec_cover, fmtdec.rule_transparent_call, fmtdec.rule_transparent_siblings, split.rule_split_table, fmtparse.rule_peg_combinators, fmtparse.rule_single_placeholder, split.rule_alias_test, generic.rule_truncating_adaptors, generic.rule_zip_alignment, state.rule_iteration_state, split.rule_expr_ident_eq, generic.rule_order_adaptors],
     explanation="FmtAttribute::transparent_call is the decision function for flag pass-through: every FormatSpec field must veto transparency, exactly one placeholder, the positional index must denote the single argument, "
     "and each site emitting an attribute body must ask it first and fall back to write! unconditionally. Argument counting depends on the argument scanner (C16 findings are repeated here).",
     assumptions=["format_args!/write! ignore the outer formatter's flags (Rust semantics)", NOT_DECIDED_VALUES],
@@ -69,7 +69,7 @@ prop(
 
 prop(
     "C06",
-    [fmtdec.rule_literal_verbatim, hdr.rule_bounds_appended, hdr.rule_tpl_hdr, fmtdec.rule_traversal, dbg.rule_builder_shape, dbg.rule_debug_tuple_sibling, rawid.rule_raw_id, fmtdec.rule_binder_align, state.rule_iteration_state, idx.rule_enumerate_positions, fmtdec.rule_pointer_deref, generic.rule_order_adaptors, generic.rule_truncating_adaptors],
+    [fmtdec.rule_literal_verbatim, hdr.rule_bounds_appended, hdr.rule_tpl_hdr, fmtdec.rule_traversal, dbg.rule_builder_shape, dbg.rule_debug_tuple_sibling, rawid.rule_raw_id, fmtdec.rule_binder_align, state.rule_iteration_state, idx.rule_enumerate_positions, fmtdec.rule_pointer_deref, generic.rule_order_adaptors, generic.rule_truncating_adaptors, generic.rule_zip_alignment, fmtdec.rule_literal_parsed],
     explanation="Without attributes generate_body must drive std's own builders like #[derive(Debug)] does (shape rules), names are rendered un-raw (RAW-ID over rustc-resolved Ident->text conversions), and the crate's copy of "
     "core::fmt::DebugTuple must have the same effect skeleton as the toolchain's core/src/fmt/builders.rs (sibling comparison, method by method).",
     assumptions=["std's #[derive(Debug)] expands to debug_struct/debug_tuple/write_str calls with un-raw names (rustc's builtin derive)", NOT_DECIDED_VALUES],
@@ -77,7 +77,7 @@ prop(
 
 prop(
     "C07",
-    [fmtdec.rule_literal_parsed, fmtdec.rule_shared_attr_unfiltered, reject.rule_reject_ledger, fmtparse.rule_peg_tables, fmtparse.rule_single_placeholder, tables.rule_fmt_trait_tables, fmtdec.rule_shared_reject, fmtdec.rule_shared_decision, fmtdec.rule_lookup_agreement, state.rule_iteration_state, optrules.rule_option_flow, fmtparse.rule_fmt_counter, fmtdec.rule_expansion_pair, generic.rule_truncating_adaptors],
+    [fmtdec.rule_literal_parsed, fmtdec.rule_shared_attr_unfiltered, reject.rule_reject_ledger, fmtparse.rule_peg_tables, fmtparse.rule_single_placeholder, tables.rule_fmt_trait_tables, fmtdec.rule_shared_reject, fmtdec.rule_shared_decision, fmtdec.rule_lookup_agreement, state.rule_iteration_state, optrules.rule_option_flow, fmtparse.rule_fmt_counter, fmtdec.rule_expansion_pair, generic.rule_truncating_adaptors, generic.rule_zip_alignment, generic.rule_order_adaptors],
     explanation="Compile-time clauses: the `_variant` rejection precedes arm generation and tests modifiers OR non-Display; Debug rejects an enum-level format; `_variant` detection resolves names like bounded_types does; "
     "body and bounds share the wrap/default decision of shared_attr_info; the wrapping template binds `_variant` with the fields in scope; rename_all applies before the wrap split.",
     assumptions=["NOT decided: the full three-way decision (shared attribute x own attribute x field count) as a truth table, and every printed text", NOT_DECIDED_VALUES],
@@ -85,7 +85,7 @@ prop(
 
 prop(
     "C08",
-    [shape.rule_ref_types, hdr.rule_tpl_hdr, hyg.rule_tpl_ufcs, conv.rule_merge_symmetry, conv.rule_from_table, conv.rule_field_order, conv.rule_validate_arity, conv.rule_into_impl_set, idx.rule_enumerate_positions, generic.rule_arg_order, generic.rule_field_correspondence, generic.rule_order_adaptors, generic.rule_truncating_adaptors, state.rule_accumulators, reject.rule_reject_ledger],
+    [shape.rule_ref_types, hdr.rule_tpl_hdr, hyg.rule_tpl_ufcs, conv.rule_merge_symmetry, conv.rule_from_table, conv.rule_field_order, conv.rule_validate_arity, conv.rule_into_impl_set, idx.rule_enumerate_positions, generic.rule_arg_order, generic.rule_field_correspondence, generic.rule_order_adaptors, generic.rule_truncating_adaptors, generic.rule_zip_alignment, state.rule_accumulators, reject.rule_reject_ledger, state.rule_monotone_flags],
     explanation="Field order and the impl set are decided in a few places: expand_fields/(i, field) pairing and the per-field templates (exactly one From::from), the `match (attrs, skip_variant)` table with a complete first pass for "
     "has_explicit_from, Into's (index, field, skip) triples and reference-kind table, Constructor's single field list, and the field-by-field symmetry of attribute merging.",
     assumptions=[NOT_DECIDED_VALUES, "coherence of the generated impls with user impls is rustc's business"],
@@ -93,7 +93,7 @@ prop(
 
 prop(
     "C09",
-    [optrules.rule_enabled_default, gendet.rule_type_param_used, idx.rule_idx_space, errsel.rule_view_defs, errsel.rule_error_selection, generic.rule_arg_order, generic.rule_field_correspondence, optrules.rule_meta_defaults, state.rule_loop_exit, generic.rule_truncating_adaptors],
+    [optrules.rule_enabled_default, gendet.rule_type_param_used, idx.rule_idx_space, errsel.rule_view_defs, errsel.rule_error_selection, generic.rule_arg_order, generic.rule_field_correspondence, optrules.rule_meta_defaults, state.rule_loop_exit, generic.rule_truncating_adaptors, generic.rule_zip_alignment, attrs.rule_legacy_attr_parser],
     explanation="Index-space typing: collections over all fields vs. enabled fields are derived from utils::State; the positions stored in ParsedFields come from an enumerate over enabled fields; every subscript and every "
     "`matcher` argument must use an index of the collection's own space. Plus the documented selection table of parse_field_impl / defaults / ignored variants.",
     assumptions=[NOT_DECIDED_VALUES],
@@ -101,7 +101,7 @@ prop(
 
 prop(
     "C10",
-    [generic.rule_position_search, facade.rule_error_display, cfg.rule_cfg_export, attrs.rule_legacy_attr_parser, hyg.rule_tpl_ufcs, ops.rule_tpl_role, ops.rule_unary, ops.rule_method_names, generic.rule_arg_order, generic.rule_field_correspondence, generic.rule_order_adaptors, generic.rule_truncating_adaptors, optrules.rule_meta_defaults, state.rule_raw_flags, hdr.rule_generics_preserve],
+    [generic.rule_position_search, facade.rule_error_display, cfg.rule_cfg_export, attrs.rule_legacy_attr_parser, hyg.rule_tpl_ufcs, ops.rule_tpl_role, ops.rule_unary, ops.rule_method_names, generic.rule_arg_order, generic.rule_field_correspondence, generic.rule_order_adaptors, generic.rule_truncating_adaptors, generic.rule_zip_alignment, optrules.rule_meta_defaults, state.rule_raw_flags, hdr.rule_generics_preserve],
     explanation="Operand roles are visible in the operator templates: receiver rooted in the left operand, argument in the right, same field/variant on both sides, `(self, rhs)` scrutinee, unit/mismatch arms; unary wrapping governed by one flag; "
     "method names derived from trait names are constant-evaluated and compared with core's trait declarations; Sum/Product fold from the field-wise empty value.",
     assumptions=[NOT_DECIDED_VALUES],
@@ -109,7 +109,7 @@ prop(
 
 prop(
     "C11",
-    [hdr.rule_generics_source, attrs.rule_level_flags, optrules.rule_enabled_default, shape.rule_ref_types, hdr.rule_generics_preserve, facade.rule_error_display, shape.rule_accessors, errsel.rule_view_defs, idx.rule_idx_space, rawid.rule_raw_id, generic.rule_arg_order, generic.rule_field_correspondence, generic.rule_order_adaptors, generic.rule_truncating_adaptors, optrules.rule_meta_defaults, state.rule_raw_flags],
+    [hdr.rule_generics_source, attrs.rule_level_flags, optrules.rule_enabled_default, shape.rule_ref_types, hdr.rule_generics_preserve, facade.rule_error_display, shape.rule_accessors, errsel.rule_view_defs, idx.rule_idx_space, rawid.rule_raw_id, generic.rule_arg_order, generic.rule_field_correspondence, generic.rule_order_adaptors, generic.rule_truncating_adaptors, generic.rule_zip_alignment, optrules.rule_meta_defaults, state.rule_raw_flags, state.rule_loop_exit],
     explanation="Accessor methods, patterns, binders and error values are built per variant from one source; the failure re-match covers all variants; TryInto patterns go through matcher(field_indexes, binders) (IDX-SPACE, VIEW-DEF); "
     "method names are built from un-raw variant names.",
     assumptions=["snake_case conversion is delegated to convert_case (not analysed)", NOT_DECIDED_VALUES],
@@ -132,7 +132,7 @@ prop(
 
 prop(
     "C14",
-    [attrs.rule_legacy_attr_parser, optrules.rule_enabled_default, shape.rule_ref_types, hdr.rule_generics_preserve, hyg.rule_tpl_ufcs, shape.rule_delegation, errsel.rule_view_defs, idx.rule_idx_space, idx.rule_enumerate_positions, gendet.rule_generics_search, generic.rule_arg_order, generic.rule_field_correspondence, optrules.rule_meta_defaults, state.rule_raw_flags, reject.rule_reject_ledger, generic.rule_truncating_adaptors],
+    [attrs.rule_legacy_attr_parser, optrules.rule_enabled_default, shape.rule_ref_types, hdr.rule_generics_preserve, hyg.rule_tpl_ufcs, shape.rule_delegation, errsel.rule_view_defs, idx.rule_idx_space, idx.rule_enumerate_positions, gendet.rule_generics_search, generic.rule_arg_order, generic.rule_field_correspondence, optrules.rule_meta_defaults, state.rule_raw_flags, reject.rule_reject_ledger, generic.rule_truncating_adaptors, generic.rule_zip_alignment],
     explanation="Delegating derives use element 0 of the enabled views (VIEW-DEF keeps positional names original), direct forms `&[mut] self.member`, forwarded forms through one cast with projected associated types, "
     "RefType tables pairwise consistent, AsRef kind decision and the autoref-specialisation levels of src/as.rs vs. the call site.",
     assumptions=["autoref-based specialisation: method probing prefers the receiver with fewer auto-refs (language semantics)", NOT_DECIDED_VALUES],
@@ -140,7 +140,7 @@ prop(
 
 prop(
     "C15",
-    [hdr.rule_tpl_selfassoc, hyg.rule_generic_capture, hyg.rule_tpl_ufcs, hyg.rule_tpl_hyg, hyg.rule_tpl_meth, hyg.rule_tpl_assoc, hyg.rule_tpl_export, cfg.rule_cfg_export],
+    [hdr.rule_tpl_selfassoc, hyg.rule_generic_capture, hyg.rule_tpl_ufcs, hyg.rule_tpl_hyg, hyg.rule_tpl_meth, hyg.rule_tpl_assoc, hyg.rule_tpl_export, cfg.rule_cfg_export, hyg.rule_tpl_crate_path],
     explanation="Name resolution of a template token depends only on the token sequence: every path root / macro name / trait-method call of the 247 templates is classified; every derive_more:: path has a backing export "
     "under the features that compile the emitting code.",
     assumptions=[
@@ -151,7 +151,7 @@ prop(
 
 prop(
     "C16",
-    [split.rule_stateless_combinators, split.rule_split_table, split.rule_alias_test, fmtdec.rule_tpl_verb, fmtdec.rule_lookup_agreement, fmtparse.rule_fmt_counter, fmtdec.rule_attr_separator],
+    [split.rule_stateless_combinators, split.rule_split_table, split.rule_alias_test, fmtdec.rule_tpl_verb, fmtdec.rule_lookup_agreement, fmtparse.rule_fmt_counter, fmtdec.rule_attr_separator, split.rule_expr_ident_eq],
     explanation="The argument scanner is a four-alternative token matcher; its alternatives are compared with the places where Rust's expression grammar keeps a comma inside an expression (table compiled from syn), "
     "the alias test is checked against `==` and spacing, termination/failure of the helper loops, verbatim re-emission (TPL-VERB).",
     assumptions=["agreement on *all* expressions is undecidable for a hand scanner; the table is the claim", "`->` inside `::<..>` and `|=` are residual exotic hazards listed in DESIGN.md, not decided"],
@@ -159,7 +159,7 @@ prop(
 
 prop(
     "C17",
-    [attrs.rule_position_grammar, conv.rule_merge_no_shortcut, attrs.rule_level_flags, hdr.rule_user_bounds_flow, shape.rule_discriminants, attrs.rule_legacy_attr_parser, attrs.rule_typed_attrs, attrs.rule_attr_positions, conv.rule_merge_symmetry, optrules.rule_option_flow, reject.rule_reject_ledger, fmtdec.rule_attr_separator, optrules.rule_meta_defaults, state.rule_accumulators, state.rule_loop_exit, generic.rule_truncating_adaptors, attrs.rule_attr_validation_reach],
+    [attrs.rule_position_grammar, conv.rule_merge_no_shortcut, attrs.rule_level_flags, hdr.rule_user_bounds_flow, shape.rule_discriminants, attrs.rule_legacy_attr_parser, attrs.rule_typed_attrs, attrs.rule_attr_positions, conv.rule_merge_symmetry, optrules.rule_option_flow, reject.rule_reject_ledger, fmtdec.rule_attr_separator, optrules.rule_meta_defaults, state.rule_accumulators, state.rule_loop_exit, generic.rule_truncating_adaptors, generic.rule_zip_alignment, attrs.rule_attr_validation_reach, state.rule_monotone_flags, attrs.rule_legacy_positions],
     explanation="Attribute totality: the untyped parser's checks dominate every successful return, its name matches end in rejecting arms, slots are written once; typed attributes reject repetition unless merging is documented "
     "(merge overrides enumerated, symmetric), synonyms are accepted alike and not branched on, legacy syntax is detected on every path, positional conflicts raise their diagnostics.",
     assumptions=["NOT decided: token-equality of expansions for synonymous inputs (follows from the parsers producing the same value; not proved), diagnostics' wording"],
@@ -175,7 +175,7 @@ prop(
 
 prop(
     "C19",
-    [det.rule_det_address, det.rule_det_hasher, det.rule_det_ambient, det.rule_det_state, generic.rule_order_adaptors, generic.rule_truncating_adaptors],
+    [det.rule_det_address, det.rule_det_hasher, det.rule_det_ambient, det.rule_det_state, generic.rule_order_adaptors, generic.rule_truncating_adaptors, generic.rule_zip_alignment],
     explanation="Determinism decided on the type-checked program: rustc's own MIR of derive_more-impl (all features) is searched for every hashed-collection instantiation, every resolved call and every static; nothing is executed.",
     assumptions=[
         "syn, quote, proc-macro2, convert_case, unicode-xid are pure (their MIR is not analysed)",
